@@ -3,3 +3,6 @@ pub mod tree;
 pub mod list;
 mod pool;
 mod node;
+
+#[cfg(ishape_rust_itree_verif)]
+mod verif;
